@@ -205,7 +205,9 @@ class AtomSelection:
             # this can mess things up if all ijk are zero
             # Since in this case, the effect should be nothing, let's skip it
             if np.any(ijk):
-                subset.set_scaled_positions(subset.get_scaled_positions() + ijk)
+                subset.set_scaled_positions(
+                    subset.get_scaled_positions(wrap=False) + ijk
+                )
 
         return subset
 
